@@ -32,11 +32,12 @@ Theorem C12_time_series_equals_fresh : forall n cs stored fr,
 Proof. exact step_equals_fresh_full. Qed.
 Print Assumptions C12_time_series_equals_fresh.
 
-(* histories with diverging steps (continue_on_divergence=True).  G12c: no controller with an initial run, or no recycling.
-   Then every step that does not diverge solves with fresh parts and only diverging steps are reported as failed *)
+(* histories with diverging steps (continue_on_divergence=True).  G12c: no controller with an initial run, or no recycling;
+   and no batch reading (only_v_results = false).  Then every step that does not diverge solves with fresh parts, every
+   diverging step is reported as failed, and no other step is *)
 Theorem C12_divergence_history_partial : forall divs cs stored fr,
   G12c cs = true -> Forall (fun c => sound c = true) cs -> fresh fr ->
-  Forall2 step_ok divs (run_steps_div divs cs stored false fr).
+  Forall2 step_ok divs (run_steps_div divs cs false stored false fr).
 Proof. exact run_steps_div_ok. Qed.
 Print Assumptions C12_divergence_history_partial.
 
@@ -44,9 +45,16 @@ Print Assumptions C12_divergence_history_partial.
    steps are reported as failed (net._ppc of the diverged initial run is recycled) *)
 Theorem C12_divergence_history_refuted :
   exists cs divs, Forall (fun c => sound c = true) cs /\
-    ~ Forall2 step_ok divs (run_steps_div divs cs false false all_fresh).
+    ~ Forall2 step_ok divs (run_steps_div divs cs false false false all_fresh).
 Proof. exact divergence_poisons_refuted. Qed.
 Print Assumptions C12_divergence_history_refuted.
+
+(* refuted with batch reading (only_v_results): a recycled power flow that does not converge is recorded silently *)
+Theorem C12_divergence_silent_refuted :
+  exists cs divs, G12c cs = true /\ Forall (fun c => sound c = true) cs /\
+    ~ Forall2 step_ok divs (run_steps_div divs cs true false false all_fresh).
+Proof. exact divergence_silent_refuted. Qed.
+Print Assumptions C12_divergence_silent_refuted.
 
 (* the rule before "fix: ConstControl only claims the recycle flag trafo for transformer parameters" was sound exactly
    on G12a and unsound at (line, length_km): regression witness *)
